@@ -10,6 +10,8 @@ for pid in $PIDS; do
   [ -f "checks/$(echo $pid | tr 'A-Z' 'a-z').py" ] || continue
   for m in mutants/$pid/*.diff seeded/$pid-*/patch.diff; do
     [ -f "$m" ] || continue
+    case "$m" in seeded/*) if grep -q '"quick_check_result": *"[^"]*equivalent' "$(dirname $m)/meta.json" 2>/dev/null; then
+        echo "| $pid | seeded/$(basename $(dirname $m)) | equivalent since a fix (see meta.json) |" >> "$TMP"; continue; fi;; esac
     res=$(VERIF_JOBS="${VERIF_JOBS:-8}" tools/mutant.sh "$m" "$pid" 2>&1 | tail -1)
     case "$res" in *CAUGHT*) r=caught;; *"does not apply"*) r="patch-does-not-apply";; *) r=MISSED;; esac
     case "$m" in seeded/*) name="seeded/$(basename $(dirname $m))";; *) name="$(basename $m .diff)";; esac
